@@ -182,7 +182,13 @@ class EnumMarshaller(AbstractMarshaller[EnumT], tp.Generic[EnumT]):
 
         Args:
             val: The enum instance to marshal.
+
+        Raises:
+            ValueError: If `val` is not a member of the bound enum.
         """
+        # Another object which happens to have a `value` attribute is not ours to marshal.
+        if not isinstance(val, self.origin):
+            raise ValueError(f"{val!r} is not a member of {self.t!r}")
         return val.value
 
 
@@ -197,7 +203,13 @@ class PatternMarshaller(AbstractMarshaller[PatternT]):
 
         Args:
             val: The pattern to marshal.
+
+        Raises:
+            ValueError: If `val` is not a compiled pattern.
         """
+        # Another object which happens to have a `pattern` attribute is not ours to marshal.
+        if not isinstance(val, re.Pattern):
+            raise ValueError(f"{val!r} is not a compiled pattern")
         return val.pattern
 
 
